@@ -85,10 +85,18 @@ theorem sysDeclsOfGroup_no_user (conns : List String → List Conn) (g : List Qu
   | nil => rfl
   | cons q g => simp only; split <;> rfl
 
+theorem sysDeclsOfKeys_no_user (conns : List String → List Conn) (qs : List Quota) :
+    ∀ ks, (sysDeclsOfKeys conns qs ks).filter (·.kind == .user) = []
+  | [] => rfl
+  | k :: ks => by
+    unfold sysDeclsOfKeys
+    rw [List.filter_append, sysDeclsOfGroup_no_user, sysDeclsOfKeys_no_user conns qs ks]
+    rfl
+
 theorem sysDecls_no_user (conns : List String → List Conn) (qs : List Quota) :
     (sysDecls conns qs).filter (·.kind == .user) = [] := by
   unfold sysDecls
-  rw [List.filter_append, sysDeclsOfGroup_no_user, sysDeclsOfGroup_no_user]
+  rw [List.filter_append, sysDeclsOfKeys_no_user, sysDeclsOfKeys_no_user]
   rfl
 
 /-! ### shape of the reference user loop -/
